@@ -947,8 +947,8 @@ pub fn check_main(tier: Tier) -> i32 {
         "combined_run_hash": format!("{:016x}", run_hash),
         "runs_hashed": n_hashes,
         "real_vs_stub": {
-            "real": ["fast_qr to_file/to_str/to_bytes and error conversions", "resvg/usvg/tiny-skia/png", "std::fs, std::io::Write::write_all", "the kernel file for every accepted byte", "real-kernel failures: ENOENT/EISDIR/ENOTDIR/ENAMETOOLONG, /dev/full, RLIMIT_FSIZE"],
-            "stub": ["libc wrappers open/open64/openat/creat/write/writev/pwrite/close/fsync/fdatasync/rename/ftruncate defined by the harness binary"]
+            "real": ["fast_qr to_file/to_str/to_bytes and error conversions", "resvg/usvg/tiny-skia/png", "std::fs, std::io::Write::write_all", "the kernel file for every accepted byte", "real-kernel failures: ENOENT/EISDIR/ENOTDIR/ENAMETOOLONG/ELOOP, /dev/full, RLIMIT_FSIZE, a removed working directory, symbolic and hard links, odd directory paths", "the crashed writer of crash-and-restart is a real separate process killed with _exit", "panics inside to_file are real ones (a failing user callback, the raster path on unusable options)"],
+            "stub": ["only the thin libc entry points, defined by the harness binary and passing accepted bytes through to the kernel: open/open64/openat/creat, write/writev/pwrite/pwritev, copy_file_range/sendfile, close, fsync/fdatasync, rename/renameat/renameat2, link/linkat/symlink, unlink/unlinkat, ftruncate, fallocate/posix_fallocate"]
         },
         "concurrent_callers": {
             "runs": stats.counters.get("conc:runs").copied().unwrap_or(0),
@@ -969,7 +969,7 @@ pub fn check_main(tier: Tier) -> i32 {
         coverage,
         vec![
             "bytes the simulated device accepted are never corrupted afterwards (no lying disks)",
-            "faults are delivered only on the calling thread between arm and disarm",
+            "faults follow the descriptor: a file opened by a caller between arm and disarm meets that caller's plan on whichever thread writes to it; in single-caller runs files opened by helper threads are adopted",
             "Err is never an alarm; nothing is asserted about file content after Err, durability or error text",
         ],
         wall,
